@@ -243,6 +243,8 @@ def config(sc, work, plug=PLUG):
         conf["time"]["reference"] = iso(sc["ref"])
     if sc["cont"]:
         conf["release"]["release_frequency"] = sc["freq"]
+    elif sc.get("token", 0) % 3 == 0:      # a discrete release that still names a frequency: the flag decides, not the number
+        conf["release"]["release_frequency"] = sc["dt"] * 2
     if sc["subgrid"]:
         conf["grid"]["subgrid"] = list(sc["subgrid"])
     if sc["hasscal"]:
